@@ -29,23 +29,28 @@ LAYOUT = ["shape", "order", "level-missing", "level-extra", "driver-exception"]
 XLAYOUT = ["shape", "order", "tlorder", "level-plan", "level-missing", "accept", "faccept", "builderr", "driver-exception"]
 PROPS = {
     "C01": dict(suites={"plan": dict(fields=LAYOUT, oracles=["isolated", "exec_perm"]),
-                        "exec": dict(fields=XLAYOUT, oracles=["no_overlap", "borrow_panic"], kf1=True)}),
+                        "exec": dict(fields=XLAYOUT, oracles=["no_overlap", "borrow_panic"], kf1=True),
+                        "async": dict(fields=["async_accept", "builderr", "level-plan", "driver-exception"], oracles=["borrow_panic", "async_once", "operation_panicked"])}),
     "C02": dict(suites={"plan": dict(fields=LAYOUT, oracles=["deps_ordered"]),
-                        "exec": dict(fields=XLAYOUT, oracles=["preds_done"])}),
+                        "exec": dict(fields=XLAYOUT, oracles=["preds_done"]),
+                        "async": dict(fields=["async_accept", "builderr", "level-plan", "driver-exception"], oracles=["borrow_panic", "async_once", "operation_panicked"])}),
     "C03": dict(suites={"plan": dict(fields=LAYOUT + ["tl", "tlorder"], oracles=["barriers", "tl_order"]),
                         "exec": dict(fields=XLAYOUT, oracles=["preds_done", "tl_last"])}),
     "C04": dict(suites={"plan": dict(fields=LAYOUT + ["tl"], oracles=["exec_perm", "exec_perm(shape-sum)"]),
-                        "exec": dict(fields=XLAYOUT, oracles=["once", "run_counts"])}),
-    "C05": dict(suites={"exec": dict(fields=XLAYOUT, oracles=["par_eq_seq(world)", "par_eq_seq(states)", "unexpected_panic"])}),
+                        "exec": dict(fields=XLAYOUT, oracles=["once", "run_counts"]),
+                        "async": dict(fields=["async_accept", "builderr", "level-plan", "driver-exception"], oracles=["borrow_panic", "async_once", "operation_panicked"])}),
+    "C05": dict(nopar=True, suites={"exec": dict(nopar=True, fields=XLAYOUT, oracles=["par_eq_seq(world)", "par_eq_seq(states)", "unexpected_panic"])}),
     "C07": dict(suites={"plan": dict(fields=LAYOUT, oracles=["isolated"]),
                         "exec": dict(fields=XLAYOUT, oracles=["no_overlap", "inside", "borrow_panic", "par_eq_seq(world)", "par_eq_seq(states)",
                                                               "once", "preds_done", "unexpected_panic"], kf1=True)}),
     "C06": dict(sd=True, suites={"sysdata": dict(fields=["reads", "writes", "fetch", "alive", "after", "setup", "setupok", "driver-exception"],
                                                  oracles=["declared_equals_borrowed", "conflicting_members_fetched", "released_after_drop", "setup_keeps_existing",
                                                           "setup_default_value", "setup_idempotent"])}),
-    "C08": dict(suites={"world": dict(fields=["outcome", "probe", "ledger", "end", "driver-exception"],
+    "C08": dict(sd=True, suites={"world": dict(fields=["outcome", "probe", "ledger", "end", "driver-exception"],
                                       oracles=["fail_preserves", "none_iff_absent", "borrow_class"]),
-                        "meta": dict(fields=["outcome", "driver-exception"], oracles=["iter_borrow_discipline"])}),
+                        "meta": dict(fields=["outcome", "driver-exception"], oracles=["iter_borrow_discipline"]),
+                        "sysdata": dict(fields=["fetch", "alive", "after", "driver-exception"],
+                                        oracles=["conflicting_members_fetched", "released_after_drop", "declared_equals_borrowed"])}),
     "C09": dict(suites={"world": dict(fields=["outcome", "probe", "ledger", "end", "driver-exception"],
                                       oracles=["mismatch_panics", "drop_once", "fail_preserves", "other_slots_untouched", "insert_replaces",
                                                "remove_empties", "entry_never_overwrites", "entry_inserts"])}),
@@ -56,7 +61,7 @@ PROPS = {
                         "async": dict(fields=["async_accept", "builderr", "level-plan", "driver-exception"],
                                       oracles=["thread_local_outside_wait", "thread_local_off_the_calling_thread",
                                                "thread_local_while_a_system_is_running", "wait_runs_thread_locals_in_order"])}),
-    "C13": dict(sd=True, suites={"exec": dict(fields=["builderr", "driver-exception", "setup_order", "dispose_order"], oracles=["setup_visits", "setup_keeps", "dispose_visits"]),
+    "C13": dict(sd=True, suites={"exec": dict(fields=["builderr", "driver-exception", "setup_order", "dispose_order"], oracles=["setup_visits", "setup_keeps", "setup_recreates", "dispose_visits"]),
                                  "sysdata": dict(fields=["setup", "setupok", "driver-exception"],
                                                  oracles=["setup_keeps_existing", "setup_default_value", "setup_idempotent"])}),
     "C14": dict(suites={"exec": dict(fields=XLAYOUT, oracles=["panic_payload", "panic_dependents", "panic_twice", "next_dispatch", "probe_free",
